@@ -48,6 +48,16 @@ static trl_which_t classify_standard(const vnacal_new_measurement_t *vnmp,
     vnacal_new_parameter_t **s = vnmp->vnm_s_matrix;
 
     *unknown_index = -1;
+
+    /*
+     * A standard that doesn't cover both ports (e.g. a single reflect)
+     * leaves cells of its S matrix NULL.
+     */
+    for (int cell = 0; cell < 4; ++cell) {
+	if (s[cell] == NULL) {
+	    return TRL_NONE;
+	}
+    }
     vnprp_one = _vnacal_get_parameter(vcp, VNACAL_ONE);
     assert(vnprp_one != NULL);
     if (s[1]->vnpr_parameter == vnprp_one) {
